@@ -26,10 +26,19 @@ def _write_replay(outdir, name, obj):
 def run_harnesses(pid, cfg, outdir, tier, seed, replay=None):
     res = []
     for h in cfg.get("harness", []):
+        cur_file = os.path.join(outdir, "running.json")
+        if os.path.exists(cur_file):
+            os.remove(cur_file)
         rc, out, dt = vlib.run_go(h["pkg"], h["test"], outdir, tier, seed, timeout=h.get("timeout", 1500),
                                   replay=replay, race=h.get("race", False) and (tier == "thorough" or h.get("race_quick", False)))
+        running = None
+        if rc != 0:
+            try:
+                running = json.load(open(cur_file))
+            except Exception:
+                running = None
         res.append({"pkg": h["pkg"], "test": h["test"], "rc": rc, "wall_s": round(dt, 2), "race": h.get("race", False),
-                    "log_tail": out[-4000:] if rc != 0 else "", "log_full": out[-200000:] if rc != 0 else ""})
+                    "log_tail": out[-4000:] if rc != 0 else "", "log_full": out[-200000:] if rc != 0 else "", "running": running})
     return res
 
 
@@ -134,7 +143,12 @@ def run_property(pid, cfg, tier, seed, replay):
             if sig:
                 log = h.get("log_full") or h["log_tail"]
                 at = log.find(sig[0])
-                crash_violations.append({"clause": sig[1], "input": {"rerun_harness_test": h["test"], "package": h["pkg"], "race_detector": bool(h.get("race"))},
+                inp = {"rerun_harness_test": h["test"], "package": h["pkg"], "race_detector": bool(h.get("race"))}
+                # the harness records the input it is about to run: that is the one that killed the process
+                cur = h.get("running")
+                if cur and not h.get("race"):
+                    inp = {cur["kind"]: cur["input"]} if cur.get("kind") not in (None, "mgr") else cur["input"]
+                crash_violations.append({"clause": sig[1], "input": inp,
                                          "detail": log[max(0, at - 200):at + 1800], "harness": h["test"]})
             else:
                 broken.append({"kind": "correspondence", "what": "harness %s %s failed to build or run against the current tree" % (h["pkg"], h["test"]),
